@@ -289,6 +289,92 @@ func (h *hostileRun) hostileEnvelopes(valid [][]byte) [][]byte {
 	return out
 }
 
+// hostileFields: every valid transaction with exactly ONE wire field replaced by a hostile value, everything else
+// (including the rest of the signature context) left as it was - the inputs that pass every check made before the
+// code that handles the replaced field.
+func (h *hostileRun) hostileFields(valid [][]byte) [][]byte {
+	rng := h.rng
+	var out [][]byte
+	lens := []int{0, 1, 19, 21, 31, 32, 33, 63, 64, 66, 130}
+	for _, v := range valid {
+		base := &rctypes.TrxProto{}
+		if err := proto.Unmarshal(v, base); err != nil {
+			continue
+		}
+		mut := func(f func(p *rctypes.TrxProto)) {
+			p := proto.Clone(base).(*rctypes.TrxProto)
+			f(p)
+			out = append(out, envelope(p))
+		}
+		for _, n := range lens {
+			n := n
+			mut(func(p *rctypes.TrxProto) { // truncated / padded signature (the real one as far as it goes)
+				sig := append([]byte{}, p.Sig...)
+				for len(sig) < n {
+					sig = append(sig, byte(rng.Intn(256)))
+				}
+				p.Sig = sig[:n]
+			})
+		}
+		mut(func(p *rctypes.TrxProto) { p.Sig[64] += 27 })
+		mut(func(p *rctypes.TrxProto) { p.Sig[64] = 4 })
+		mut(func(p *rctypes.TrxProto) { p.Sig[64] = 0xff })
+		mut(func(p *rctypes.TrxProto) { // r or s out of range
+			for i := 0; i < 32; i++ {
+				p.Sig[i] = 0xff
+			}
+		})
+		mut(func(p *rctypes.TrxProto) {
+			for i := 32; i < 64; i++ {
+				p.Sig[i] = 0
+			}
+		})
+		for _, n := range []int{0, 1, 19, 21, 32} {
+			n := n
+			mut(func(p *rctypes.TrxProto) { p.From = randBytes(rng, n) })
+			mut(func(p *rctypes.TrxProto) { p.To = randBytes(rng, n) })
+			mut(func(p *rctypes.TrxProto) {
+				if n <= len(p.From) {
+					p.From = p.From[:n]
+				}
+			})
+		}
+		for _, b := range [][]byte{nil, {}, {0}, bytes.Repeat([]byte{0xff}, 32), bytes.Repeat([]byte{0xff}, 33), bytes.Repeat([]byte{0x80}, 40)} {
+			b := b
+			mut(func(p *rctypes.TrxProto) { p.XAmount = b })
+			mut(func(p *rctypes.TrxProto) { p.XGasPrice = b })
+		}
+		for _, g := range []uint64{0, 1, math.MaxInt64, math.MaxUint64} {
+			g := g
+			mut(func(p *rctypes.TrxProto) { p.Gas = g })
+			mut(func(p *rctypes.TrxProto) { p.Nonce = g })
+		}
+		for _, t := range []int32{0, -1, 9, 100, math.MaxInt32, math.MinInt32} {
+			t := t
+			mut(func(p *rctypes.TrxProto) { p.Type = t })
+		}
+		for t := int32(1); t <= 8; t++ {
+			t := t
+			mut(func(p *rctypes.TrxProto) { p.Type = t }) // the payload of another type
+		}
+		for _, pl := range [][]byte{nil, {}, {0xff}, randBytes(rng, 7), bytes.Repeat([]byte{0x0a, 0x7f}, 300)} {
+			pl := pl
+			mut(func(p *rctypes.TrxProto) { p.XPayload = pl })
+		}
+		mut(func(p *rctypes.TrxProto) {
+			if len(p.XPayload) > 1 {
+				p.XPayload = p.XPayload[:len(p.XPayload)/2]
+			}
+		})
+		for _, tm := range []int64{0, -1, math.MinInt64, math.MaxInt64} {
+			tm := tm
+			mut(func(p *rctypes.TrxProto) { p.Time = tm })
+		}
+		mut(func(p *rctypes.TrxProto) { p.Version = math.MaxUint32 })
+	}
+	return out
+}
+
 func (h *hostileRun) queries() {
 	rng := h.rng
 	r := h.s.R
@@ -337,6 +423,9 @@ func RunHostile(seed int64, rounds int, tmp string, emit func(J)) (map[string]in
 		for _, bz := range h.hostileSigned() {
 			h.tx("CheckTx", bz, "signed")
 		}
+		for _, bz := range h.hostileFields(valid) {
+			h.tx("CheckTx", bz, "field")
+		}
 		h.queries()
 		// inside a block: DeliverTx at every position, with probes in between
 		s.Begin(allHdr)
@@ -355,6 +444,12 @@ func RunHostile(seed int64, rounds int, tmp string, emit func(J)) (map[string]in
 		for i, bz := range sig {
 			h.tx("DeliverTx", bz, "signed")
 			if i%10 == 3 {
+				h.probe()
+			}
+		}
+		for i, bz := range h.hostileFields(valid) {
+			h.tx("DeliverTx", bz, "field")
+			if i%40 == 11 {
 				h.probe()
 			}
 		}
